@@ -10,7 +10,7 @@ PROPERTY = "C05"
 SHARDS = {"quick": 8, "thorough": 16}
 MODES = {"quick": [{"name": "jit", "env": {}}], "thorough": [{"name": "jit+boundscheck", "env": {"NUMBA_BOUNDSCHECK": "1"}}]}
 RULE = (
-    "cases (grids built from lon/lat topology or, one in three, from Cartesian-only face vertices whose lon/lat the library derives): (a) the 15 supported quadrature tables (finite, walked completely: weights sum to 1, points inside the "
+    "cases (grids built from lon/lat topology (one in three in the caller's own index convention - one-based, padded with 0 / -1 / a large number; regular patches with whole-degree longitudes as an integer array) or, one in three, from Cartesian-only face vertices whose lon/lat the library derives): (a) the 15 supported quadrature tables (finite, walked completely: weights sum to 1, points inside the "
     "domain, monomial moments exact to the rule's degree); (b) closed Voronoi / merged-Delaunay / polyhedral / "
     "cubed-sphere meshes from 6 to 3000 cells (face diameters 3..100 degrees), every face checked with the default "
     "rule against the exact excess (Van Oosterom-Strackee fan, cross-checked with Girard) under the property's own "
@@ -24,6 +24,7 @@ ASSUMPTIONS = ["exact area = fan sum of Van Oosterom-Strackee triangle excesses;
                "only convex faces with 3..8 corners and edges < 90 degrees are held to the accuracy bounds"]
 TRI = [1, 4, 8, 10, 12]
 GAUSS = list(range(1, 11))
+CONV = [4, 3, 2, 5, 4]  # indices into ux.CONVENTIONS: (fill 0, one-based), (-1, one-based), (-1, zero-based), (999999, zero-based)
 RULES = [("triangular", o) for o in TRI] + [("gaussian", o) for o in GAUSS]
 MIN_EVAL = {"quick": {"default_accuracy": 2000, "nonnegative": 2000, "convergence": 300, "invariance": 1500, "additivity": 200, "cache": 20, "total": 20, "quadrature_table": 15},
             "thorough": {"default_accuracy": 50000, "nonnegative": 50000, "convergence": 6000, "invariance": 40000, "additivity": 5000, "cache": 400, "total": 400, "quadrature_table": 15}}
@@ -74,7 +75,12 @@ def cases(tier, seed):
         else:
             d = {"family": fam, "ne": int(rng.integers(2, 12))}
         d["ops"] = [["rot", int(rng.integers(0, 10**6))]] if (rng.random() < 0.5 and fam not in ("latlon_global", "latlon_patch", "sample", "fine_patch")) else d.get("ops", [])
-        yield {"kind": "mesh", "mesh": d, "tseed": int(rng.integers(0, 10**6)), "all_rules": bool(i % 4 == 0), "source": "face_vertices_xyz" if i % 3 == 2 else "topology",
+        source = "face_vertices_xyz" if i % 3 == 2 else "topology"
+        if i % 3 == 1:  # the caller's own index convention: one-based, padded with 0 / -1 / a large number
+            source = "topology_conv:%d" % CONV[(i // 3) % len(CONV)]
+        if fam == "latlon_patch" and i % 2 == 0:  # whole-degree longitudes handed over as an integer array, fractional latitudes as floats
+            source = "topology_int_lon"
+        yield {"kind": "mesh", "mesh": d, "tseed": int(rng.integers(0, 10**6)), "all_rules": bool(i % 4 == 0), "source": source,
                "radius": float(rng.choice([1.0, 1.0, 0.5, 0.999, 2.0, 6371.229]))}
 
 
@@ -145,6 +151,13 @@ def make_grid(m, source):
         for i, f in enumerate(m.faces):
             fv[i, : len(f)] = m.xyz[f] * RADIUS[0]
         return ux.ux().Grid.from_face_vertices(fv, latlon=False)
+    if source.startswith("topology_conv:"):
+        return ux.grid_from_mesh(m, convention=ux.CONVENTIONS[int(source.split(":")[1])])
+    if source == "topology_int_lon":
+        lon, lat = m.lonlat()
+        li = np.rint(lon)
+        if np.max(np.abs(lon - li)) < 1e-9:  # (twins that were rotated have no whole-degree longitudes: handed over as floats)
+            return ux.ux().Grid.from_topology(node_lon=li.astype(np.int64), node_lat=np.array(lat), face_node_connectivity=m.padded(), fill_value=ux.INT_FILL)
     return ux.grid_from_mesh(m)
 
 
